@@ -137,6 +137,7 @@ def check(cx):
         'R19.2 each LUSERS field is the stated state term',
         'R19.3 ISON/USERHOST output exactly the queried nicknames present in the registry, with * <=> operator and -/+ <=> away',
         'R19.4 connection slots: one fetch_add per attempt, admission compares the previous value with < max_connections, refusal gives the slot back, ConnState (whose Drop returns the slot exactly once) is constructed only on admission, with the shared counter',
+        'R19.6 the counting registry functions (add_user / remove_user) are called only by registration and teardown - a re-key of the registry (NICK) must not pass through them',
         'R19.5 max_users_count is raised to users.len() after every registry insert',
     ]
     ck.does_not_decide += ['TLS handshakes in progress (not counted by construction)', 'that LUSERS numbers are read atomically with respect to other handlers (they are: one read guard, C18)']
@@ -186,6 +187,11 @@ def check(cx):
             if b not in allowed:
                 r1.violation('%s|writes|%s' % (b, tgt), '%s is written in %s, which the coupling analysis does not cover' % (tgt, b),
                              loc=cx.loc(e.node))
+
+    # ---------------------------------------------------------------- R19.6 callers of the counting functions
+    from .C02 import rule_registry_callers
+    r6 = cx.rule('R19.6', 'callers of the counting registry functions', floor=2, kind='who-may-call')
+    rule_registry_callers(cx, r6)
 
     # ---------------------------------------------------------------- R19.5 high-water mark
     r5 = cx.rule('R19.5', 'max_users_count high-water mark', floor=1, kind='pairing')
